@@ -387,7 +387,7 @@ outer:
 							return
 						}
 						newPacket := gopacket.NewPacket(b.Bytes(), layers.LayerTypeIPv4, gopacket.Default)
-						if err := newPacket.ErrorLayer(); err != nil {
+						if err := newPacket.ErrorLayer(); err != nil && newPacket.TransportLayer() == nil {
 							log.Printf("Bad packet %s:%d: %v", pmd.PcapInfo.Filename, pmd.Index, err.Error())
 							return
 						}
